@@ -10,8 +10,9 @@ Entry points exercised (implementation side):
   SettingsInversion, or through a pushed general.yaml overlay: the repository's config is what decides when the argument is None).
 
 Every floating-point *decision* of the solver (sign of the warm-start solution, s <= tol, max w > tol, arg-max runner-up,
-d <= tol after the alpha step) is re-computed exactly (fractions) by `Mirror`; a case with a decision closer than 1e-6 to
-its threshold is skipped and counted (kind `band`)."""
+d <= tol after the alpha step) is re-computed exactly (fractions) by `Mirror`; for a case with a decision closer than 1e-6 to
+its threshold (every exactly symmetric system) the comparison with the model is waived and only the specification is evaluated, in Coq,
+on the implementation's output (kind `...:speconly`, Coq wrapper KSpec; counts per reason in the evidence)."""
 import os, atexit, shutil, tempfile, random
 import numpy as np
 from fractions import Fraction
@@ -32,16 +33,23 @@ RULE = ("SPD systems A = Z^T Z (+ R) + k I, n = 1..8, integer or quarter entries
         "regularization, 1-pixel mappers, singular systems) and over Imaging + Rectangular mappers (mapping and w-tilde formalisms, "
         "3x3 / 1x3 / 3x1 signed PSFs, negative data) for all use_positive_only_solver x positive_only_uses_p_initial x "
         "force_edge_pixels_to_zeros (+ force_edge_image_pixels_to_zeros); settings given explicitly or through a pushed "
-        "general.yaml. Non-trivial = the unconstrained solution has at least one negative and one positive entry (the active set "
+        "general.yaml. Phase 2 streams: exactly symmetric / degenerate SPD systems (mirror pairs, exchangeable triples, self-mirrored "
+        "parameters, A = S + P S P, duplicate columns; two thirds selected by the exact mirror to delete >= 2 passive entries in one "
+        "fix_constraint step) through fnnls_cholesky (cold / production warm start / masks), reconstruction_positive_only_from and "
+        "aa.Inversion (identity-mapping mapper; left-right symmetric Imaging on Rectangular meshes, corpus seeds); linear_obj_list orders "
+        "fm, fmf, ffm, mfm, fmm, mf, fmfm, m with both forced lists non-empty (mock and Rectangular mappers). Cases with a decision on a "
+        "tie are evaluated specification-only (KSpec), never dropped. Non-trivial = the unconstrained solution has at least one negative and one positive entry (the active set "
         "is neither empty nor full) or the case is an Inversion; distinct = distinct JSON input.")
 TRUSTED = ["hand-written Gallina model coq/Model/C05.v (active-set loops of fnnls.py, wrappers of inversion_util.py / abstract.py), tied to "
            "/repo by this correspondence run: implementation output vs exact rational model output, |diff| <= 1e-9 max(1,|model|), "
            "evaluated inside Coq by vm_compute, plus the KKT / normal-equation certificate evaluated on the implementation's output",
            "scipy.linalg.solve(assume_a='pos'), scipy.linalg.cholesky/cho_solve, numpy.linalg.solve = the exact solve of the system they "
-           "are given (modelled by Gaussian elimination, proved sound in Coq); the rank-one Cholesky updates of cholesky_funcs.py by "
-           "their contract U^T U = A[P_inorder, P_inorder], asserted numerically on every call the implementation makes during the run",
+           "are given (modelled by Gaussian elimination, proved sound in Coq); the Cholesky updates of cholesky_funcs.py are modelled "
+           "(Model/C05Chol.v) and proved to preserve U^T U = A[P_inorder, P_inorder]; the contract is also asserted numerically on every call "
+           "the implementation makes during the run, and a sample of the calls is replayed in Coq (KChol cases)",
            "Python-side exact mirror (fractions) used only to measure decision margins; never used to decide agreement",
-           "doubles: systems are small integers / quarters; comparisons under tolerance, decisions kept >= 1e-6 from thresholds"]
+           "doubles: systems are small integers / quarters; comparisons under tolerance; where a decision lies within 1e-6 of its threshold only the "
+           "specification (KKT certificate, tolerance 1e-8 max(1,|b|)) is evaluated on the implementation's output"]
 ASSUMPTIONS = ["real arithmetic (no rounding); theorems over R", "termination of the active-set loops is not proved (explicit fuel = the code's "
                "10000-iteration guards)", "w-tilde mapped data (unique mappings + convolution) is correspondence-only"]
 
@@ -52,7 +60,8 @@ STATS = {"chol_contract_calls": 0, "chol_contract_max_residual": 0.0, "solver_ru
          # measured on the implementation (wrapper around the choldeleteindexes that fnnls.py calls)
          "chol_cases_in_coq": 0, "chol_calls_too_deep_for_coq": 0, "impl_solver_runs_watched": 0, "impl_delete_calls": 0, "impl_delete_calls_2plus": 0, "impl_runs_deleting_2plus_in_one_step": 0,
          "impl_runs_deleting_3plus_in_one_step": 0, "impl_max_deleted_in_one_step": 0,
-         "glue_cases_nonmapper_before_mapper": 0, "glue_cases_nonmapper_before_mapper_with_forced_edge_and_zero_lists": 0}
+         "glue_cases_nonmapper_before_mapper": 0, "glue_cases_nonmapper_before_mapper_with_forced_edge_and_zero_lists": 0,
+         "glue_..._of_which_rectangular_mappers": 0, "glue_..._of_which_mock_mappers": 0}
 CHOL_BUDGET = [120]     # number of Cholesky-update calls turned into Coq cases (set per tier by gen_inputs)
 SKIPPED = {}        # reason -> number of cases not evaluated at all
 SPEC_ONLY = {}      # reason -> number of cases where only the specification was evaluated on the implementation's output (KSpec)
@@ -68,7 +77,7 @@ def extra_evidence():
     return {"skipped_by_reason": dict(SKIPPED), "skipped_total": sum(SKIPPED.values()),
             "spec_only_by_reason": dict(SPEC_ONLY), "spec_only_total": sum(SPEC_ONLY.values()),
             "cholesky_contract_calls": STATS["chol_contract_calls"], "cholesky_update_calls_checked_in_coq": STATS["chol_cases_in_coq"],
-            "cholesky_delete_calls_not_replayed_in_coq_more_than_5_rotations": STATS["chol_calls_too_deep_for_coq"],
+            "cholesky_delete_calls_not_replayed_in_coq_more_than_3_rotations": STATS["chol_calls_too_deep_for_coq"],
             "cholesky_contract_max_residual": STATS["chol_contract_max_residual"],
             "branch_tally": {k: STATS[k] for k in ("solver_runs", "runs_with_prune_step", "runs_with_inner_fix_step",
                                                    "runs_with_2plus_inner_fix_steps", "runs_with_multi_delete_step_exact", "outer_iterations")},
@@ -218,10 +227,10 @@ class CholWatch:
         n_kind = sum(1 for c in self.cases if c[0] == kind)
         if len(self.cases) >= 4 or (n_kind >= 1 and not multi): return
         if kind == "del":       # every rotation of _cholupdate takes a square root of the previous results: the exact rationals of the
-            # model double in size per rotation, so only calls with at most 5 rotations in all are replayed in Coq
+            # model grow about five-fold in size per rotation (1000 s for 5 rotations), so only calls with at most 3 rotations are replayed in Coq
             size = U0.shape[0]; rot = 0
             for i in sorted(arg, reverse=True): rot += size - 1 - i; size -= 1
-            if rot > 5: STATS["chol_calls_too_deep_for_coq"] += 1; return
+            if rot > 3: STATS["chol_calls_too_deep_for_coq"] += 1; return
         out = np.asarray(out, dtype=float)
         if out.ndim != 2 or out.shape[0] != out.shape[1] or not np.all(np.isfinite(out)): return     # shape / nan: reported by `note`
         CHOL_BUDGET[0] -= 1; STATS["chol_cases_in_coq"] += 1
@@ -439,7 +448,7 @@ ORDERS = ["fm", "fmf", "ffm", "mfm", "fmm", "mf", "fmfm", "m"]     # f = non-map
 
 def gen_inputs(tier, rng):
     big = tier == "thorough"
-    CHOL_BUDGET[0] = 1200 if big else 80
+    CHOL_BUDGET[0] = 600 if big else 60
     # ---- the glue layer: every order of mappers / non-mapper objects with non-empty forced lists (mock objects, then Rectangular mappers)
     for i in range(160 if big else 24):
         yield gen_mock_order(rng, ORDERS[i % len(ORDERS)], i)
@@ -776,8 +785,10 @@ def inversion_rows(aa, inv, objs_desc, st, kind, nontrivial=True):
         elif seen_func: order_hit = True
     if order_hit:
         STATS["glue_cases_nonmapper_before_mapper"] += 1
-        if st["pos"] and st["force"] and st["edge_image"] and any(o["mapper"] and o["edge"] for o in objs_desc) and st["source_zero"] and forced:
+        zero_list = any(o["mapper"] and any(o["Mq"][r][j] != 0 for r in st["source_zero"] for j in range(o["params"])) for o in objs_desc)
+        if st["pos"] and st["force"] and st["edge_image"] and any(o["mapper"] and o["edge"] for o in objs_desc) and zero_list:
             STATS["glue_cases_nonmapper_before_mapper_with_forced_edge_and_zero_lists"] += 1
+            STATS["glue_..._of_which_" + ("rectangular_mappers" if kind.startswith("real") else "mock_mappers")] += 1
     with CholWatch(record=why not in (ILL, COST)) as cw:
         res = out_vec(call(lambda: inv.reconstruction))
     cobjs = clist([cobj(o["params"], o["mapper"], o["edge"], o["Mq"]) for o in objs_desc])
